@@ -8,7 +8,7 @@ Open Scope list_scope.
 Definition alpha_query : alphabet :=
   mk_alphabet ["b1"; "b2"; "b3"] ["u1"; "u2"].
 
-Lemma exh_query_count : count_ext 3 alpha_query (builtin_steps (a_builtins alpha_query)) = 111715%N.
+Lemma exh_query_count : count_ext 3 alpha_query (builtin_steps (a_builtins alpha_query)) = 115811%N.
 Proof. vm_compute. reflexivity. Qed.
 
 Lemma exh_query : all_ok 3 alpha_query (builtin_steps (a_builtins alpha_query)) = true.
